@@ -62,10 +62,10 @@ _COUNT = [0]
 def replay(c, variant=""):
     # two sets of rule objects per worker process (options given by keyword / positionally), reused across thousands of instances
     if not _RULES:
-        _RULES.update({(n, o, 0): r for n, o, r in rewrite.rules()})
-        _RULES.update({(n, o, 1): r for n, o, r in rewrite.rules()})
-    _COUNT[0] += 1
-    rule = _RULES[(c["rule"], c["opt"], _COUNT[0] % 2)]
+        _RULES.update({(n, o, 0): r for n, o, r in rewrite.rules(pos=False)})
+        _RULES.update({(n, o, 1): r for n, o, r in rewrite.rules(pos=True)})
+    flavour = common.pick(json.dumps(c["inp"], sort_keys=True) + str(c["path"]), 2)
+    rule = _RULES[(c["rule"], c["opt"], flavour)]
     tree = build_json(c["inp"])
     if variant == "floatexp" and not float_exponents(tree):
         return None
@@ -103,7 +103,7 @@ def replay_envs(c):
         ev2["env"] = "np-raise"
         try:
             with np.errstate(all="raise"):
-                rule = _RULES[(c["rule"], c["opt"], _COUNT[0] % 2)]
+                rule = _RULES[(c["rule"], c["opt"], common.pick(json.dumps(c["inp"], sort_keys=True) + str(c["path"]), 2))]
                 node = navigate(build_json(c["inp"]), c["path"])
                 ev2["applicable"] = bool(rule.can_apply_to(node))
         except BaseException as e:  # noqa
@@ -134,7 +134,7 @@ def run(ctx, cases=None):
         res.exhaustive = not ctx.quick
     else:
         res.rule = "replay"
-    from multiprocessing import Pool
+    from ..common import Pool
     with Pool(16) as pool:
         events = [e for l in pool.map(replay_envs, cases, chunksize=100) for e in l]
     send = [{k: v for k, v in e.items() if k not in ("printed", "env")} for e in events]
